@@ -153,6 +153,74 @@ def run_block(case):
     return r
 
 
+def run_two(case):
+    """two instances of one library class with (possibly) different constructor arguments under one top: whatever module
+    names they are emitted under, each instance must keep its own behaviour"""
+    name = case['block']
+    tags = ['two_instances:' + name]
+    io = [block_io(name, c) for c in case['cfgs']]
+    inw = io[0][0] + io[1][0]
+    outw = io[0][1] + io[1][1]
+    n0i, n0o = len(io[0][0]), len(io[0][1])
+    order = case.get('order', 0)
+
+    class _Sub:
+        pass
+
+    def builder(t, i, o):
+        made = [None, None]
+        for which in ([0, 1] if order == 0 else [1, 0]):
+            ii = i[:n0i] if which == 0 else i[n0i:]
+            oo = o[:n0o] if which == 0 else o[n0o:]
+            # every instance gets its own name: the catalogue builders call theirs 'dut'
+            holder = netgen.Wrapper(t, 'inst%d' % which)
+            for k, w in enumerate(ii):
+                holder.addIn('i%d' % k, w)
+            for k, w in enumerate(oo):
+                holder.addOut('o%d' % k, w)
+            made[which] = io[which][2](holder, ii, oo)
+        return made
+    try:
+        sysm, top, ins, outs, blk = rtl.wrap(inw, outw, builder)
+    except HarnessError:
+        raise
+    except Exception:
+        return discard('rejected_by_constructor', tags)
+    seq = [[v & mask(w) for v, w in zip(vec, inw)] for vec in case['inputs']]
+    if name == 'DualPortSynchronousMemory':
+        return discard('not_applicable', tags)
+    r = compare_run(sysm, top, ins, outs, seq, tags)
+    if isinstance(r, tuple):
+        same = case['cfgs'][0] == case['cfgs'][1]
+        return fail('two_instances|{}|{}|{}'.format(name, 'same_cfg' if same else 'different_cfg', r[1]),
+                    '{} cfgs={}: {}'.format(name, case['cfgs'], r[3]), cls=tags)
+    return r
+
+
+def two_cases(max_len):
+    names = [n for n in sorted(list(ARITH) + list(LOGIC)) if not n.startswith('hlp.')]
+
+    def for_block(n):
+        cat = ARITH if n in ARITH else LOGIC
+        e = cat[n]
+
+        def seqs(cfgs):
+            inw = e.inw(cfgs[0]) + e.inw(cfgs[1])
+            return st.lists(st.tuples(*[value_st(w) for w in inw]).map(list), min_size=3, max_size=3).map(
+                lambda s_: {'kind': 'two', 'block': n, 'cfgs': list(cfgs), 'inputs': s_})
+        return st.tuples(e.strat, e.strat).flatmap(seqs)
+
+    def for_seq(n):
+        def hist(cfgs):
+            h0 = c09.history(n, cfgs[0], max_len)
+            h1 = c09.history(n, cfgs[1], max_len)
+            return st.tuples(h0, h1).map(lambda hh: {'kind': 'two', 'block': n, 'cfgs': list(cfgs),
+                                                     'inputs': [a + b for a, b in zip(hh[0], hh[1])]})
+        return st.tuples(c09.cfgs(n), c09.cfgs(n)).flatmap(hist)
+    base = st.one_of(st.sampled_from(names).flatmap(for_block), st.sampled_from(sorted(c09.BLOCKS)).flatmap(for_seq))
+    return st.tuples(base, st.integers(0, 1)).map(lambda t: dict(t[0], order=t[1]))
+
+
 def one_block_cases(n, max_len):
     def seq_for(inw, k):
         return st.lists(st.tuples(*[value_st(w) for w in inw]).map(list), min_size=k, max_size=k) if inw else st.just([[]] * k)
@@ -315,6 +383,31 @@ def corpus_io(name, p):
         M, bld = c16.TABLE[name]
         m = M(p)
         return m.ports(), m.outs(), lambda t, i, o: bld(t, i, o, p)
+    if name == 'MsgSequencerPair':
+        # two sequencers in one design (messages of equal or different length)
+        def b2(t, i, o):
+            MsgSequencer(t, 'seq_a', i[0], o[0], o[1], p['msg'][0])
+            MsgSequencer(t, 'seq_b', i[1], o[2], o[3], p['msg'][1])
+        return [1, 1], [1, 8, 1, 8], b2
+    if name == 'FPCompare':
+        # a plain and an absolute-mode comparator (and, optionally, an adder, which holds an absolute comparator) on the
+        # same operands, instantiated in either order
+        def b3(t, i, o):
+            def plain():
+                py4hw.FPComparator_SP(t, 'cmp_plain', i[0], i[1], o[0], o[1], o[2])
+
+            def absolute():
+                py4hw.FPComparator_SP(t, 'cmp_abs', i[0], i[1], o[3], o[4], o[5], absolute=True)
+
+            def adder():
+                py4hw.FPAdder_SP(t, 'adder', i[0], i[1], o[6])
+            parts = [plain, absolute] + ([adder] if p.get('adder') else [])
+            for k in p['order']:
+                if k < len(parts):
+                    parts[k]()
+            if not p.get('adder'):
+                py4hw.Constant(t, 'zero', 0, o[6])
+        return [32, 32], [1, 1, 1, 1, 1, 1, 32], b3
     raise HarnessError(name)
 
 
@@ -340,7 +433,14 @@ def corpus_cases(max_len):
         lambda h: {'kind': 'corpus', 'name': 'AsynchronousMemory', 'p': {'aw': t[0], 'w': t[1]}, 'inputs': h}))
     axi = st.sampled_from(['Axi2Reg', 'Reg2Axi']).flatmap(lambda b: c16._cfg(b).flatmap(
         lambda c: c16._hist(b, c, max_len).map(lambda h: {'kind': 'corpus', 'name': b, 'p': c, 'inputs': h})))
-    return st.one_of(msg, amem, axi, axi)
+    msg2 = st.tuples(st.text(alphabet='AbZ09!x', min_size=1, max_size=4), st.text(alphabet='AbZ09!x', min_size=1, max_size=4),
+                     st.lists(st.tuples(bit, bit).map(list), min_size=2, max_size=max_len), st.booleans()).map(
+        lambda t: {'kind': 'corpus', 'name': 'MsgSequencerPair',
+                   'p': {'msg': [t[0], (t[1] + t[0])[:len(t[0])] if t[3] else t[1]]}, 'inputs': t[2]})
+    from .c13 import pair_strategy
+    fpc = st.tuples(st.lists(pair_strategy(40).map(list), min_size=1, max_size=4), st.permutations([0, 1, 2]), st.booleans()).map(
+        lambda t: {'kind': 'corpus', 'name': 'FPCompare', 'p': {'order': list(t[1]), 'adder': t[2]}, 'inputs': t[0]})
+    return st.one_of(msg, amem, axi, axi, msg2, fpc)
 
 
 def run_case(case):
@@ -348,6 +448,8 @@ def run_case(case):
         return run_block(case)
     if case['kind'] == 'corpus':
         return run_corpus(case)
+    if case['kind'] == 'two':
+        return run_two(case)
     return run_netlist(case)
 
 
@@ -371,6 +473,8 @@ def strata(tier):
          'tasks': [{'block': n, 'n': 14 if q else 300, 'max_len': 20 if q else 60} for n in all_block_names()]},
         {'name': 'bodies_and_emulation_blocks', 'kind': 'hyp', 'examples': 300 if q else 6000,
          'strategy': lambda: corpus_cases(20 if q else 60), 'run_case': run_case},
+        {'name': 'two_instances_of_one_class', 'kind': 'hyp', 'examples': 400 if q else 8000,
+         'strategy': lambda: two_cases(12 if q else 30), 'run_case': run_case},
         {'name': 'netlists', 'kind': 'hyp', 'examples': 400 if q else 8000,
          'strategy': lambda: netlist_cases(25 if q else 80, 20 if q else 60), 'run_case': run_case},
     ]
